@@ -93,3 +93,56 @@ func VerifH_LineProgram() {
 	symx.MustFinish(tW, "after Stop the lane goroutine terminates")
 	symx.Reach("end")
 }
+
+// C14/H2c (single line): a call made with a context that has already ended, on an idle lane or behind a
+// busy call: the caller gets its own context's error and no result, or the result of its own call.
+func VerifH_LineDeadContext() {
+	wg := &sync.WaitGroup{}
+	l := NewLine(wg, WithQSize(symx.Concrete(symx.Int("qSize"), 0, 2)))
+	l.Run()
+	log := &verifLaneLog{}
+	gate := make(chan struct{})
+	call := func(ctx context.Context, req interface{}) (interface{}, error) {
+		id := req.(int)
+		symx.YieldOn(log)
+		n := symx.GhostAdd(&log.running, 1)
+		symx.Assert(n == 1, "calls on one lane never overlap in time")
+		log.runs[id]++
+		if id == 0 {
+			<-gate
+		}
+		symx.YieldOn(log)
+		symx.GhostAdd(&log.running, -1)
+		return 100 + id, nil
+	}
+	busy := symx.Bool("behindBusyCall")
+	var rA, rD interface{}
+	var eA, eD error
+	var tA symx.ThreadID
+	if busy {
+		tA = symx.Go("callerA", func() { rA, eA = l.AsyncCall(verifNewCtx(), NewCallCtx(call, 0)) })
+		symx.WaitQuiescent()
+	}
+	dead := verifNewCtx()
+	dead.cancel()
+	tD := symx.Go("deadCaller", func() { rD, eD = l.AsyncCall(dead, NewCallCtx(call, 1)) })
+	symx.WaitQuiescent()
+	symx.MustFinish(tD, "a caller whose context has ended returns without waiting for the lane")
+	if busy {
+		close(gate)
+		symx.WaitQuiescent()
+		symx.MustFinish(tA, "the busy call completes")
+		symx.Assert(eA == nil && rA.(int) == 100, "caller A receives the result of its own call")
+	}
+	if eD == nil {
+		symx.Assert(log.runs[1] == 1 && rD != nil && rD.(int) == 101, "a nil error comes with the result of the caller's own call")
+	} else {
+		symx.Assert(eD == context.Canceled && rD == nil, "otherwise the caller gets its own context's error and no result")
+	}
+	l.Stop()
+	tW := symx.Go("waiter", func() { wg.Wait() })
+	symx.WaitQuiescent()
+	symx.MustFinish(tW, "after Stop the lane goroutine terminates, the backlog drained")
+	symx.Assert(log.runs[1] <= 1, "at most once")
+	symx.Reach("end")
+}
